@@ -202,9 +202,26 @@ impl<'a> Gen<'a> {
             4 => Item::Float(*self.rng.pick(&FLOATS)),
             5 => Item::Simple(20 + self.rng.below(3) as u8),
             6 => {
-                let lens = [0usize, 1, 16, 31, 32, 33, 64];
-                let n = *self.rng.pick(&lens);
+                // (23/24, 255/256, 65535/65536: where the CBOR head of the length grows)
+                let lens = [0usize, 1, 16, 23, 24, 31, 32, 33, 64, 255, 256];
+                let mut n = *self.rng.pick(&lens);
+                if self.cfg.big && self.rng.chance(1, 60) {
+                    n = *self.rng.pick(&[65535usize, 65536]);
+                }
                 Item::Bytes(self.rng.bytes(n))
+            }
+            7 if self.rng.chance(1, 8) => {
+                let mut n = *self.rng.pick(&[23usize, 24, 255, 256]);
+                if self.cfg.big && self.rng.chance(1, 20) {
+                    n = *self.rng.pick(&[65535usize, 65536]);
+                }
+                let m = if self.cfg.markers { self.marker() } else { "t".to_string() };
+                let mut t = m;
+                while t.len() < n {
+                    t.push('x');
+                }
+                t.truncate(n);
+                Item::Text(t)
             }
             7 => Item::Text(self.rng.pick(&TEXTS).to_string()),
             _ => {
@@ -704,6 +721,11 @@ pub fn adversarial_models() -> &'static Vec<(String, M)> {
                 M::Node(Box::new(M::Leaf(Item::Text("twins".into()))), vec![M::Assertion(Box::new(M::Leaf(Item::UInt(1))), Box::new(M::Leaf(Item::Bytes(a)))), M::Assertion(Box::new(M::Leaf(Item::UInt(2))), Box::new(M::Leaf(Item::Bytes(b))))]),
             ));
         }
+        // very wide nodes (array head 0x99 0x03e8.., more assertions than fit any small fixed table)
+        for width in [1000usize, 1023, 1024, 1025] {
+            let asr: Vec<M> = (0..width).map(|i| M::Assertion(Box::new(M::Leaf(Item::UInt(i as u64))), Box::new(M::Leaf(Item::Text(format!("v{}", i % 7)))))).collect();
+            v.push((format!("wide-{}", width), M::Node(Box::new(M::Leaf(Item::Text("wide".into()))), asr)));
+        }
         // deep chains (wrap / assertion levels)
         for depth in [129usize, 130, 200, 300] {
             let mut m = M::Leaf(Item::Text(format!("core-{}", depth)));
@@ -722,7 +744,7 @@ pub fn model_for_case(rng: &mut Rng, cfg: GenCfg, case: u64) -> M {
         let adv = adversarial_models();
         let (_, m) = &adv[rng.below(adv.len())];
         // deep chains only where the configuration allows big inputs
-        if m.tree().depth() > 64 && !cfg.big {
+        if (m.tree().depth() > 64 || m.tree().count() > 600) && !cfg.big {
             return serial_node(rng);
         }
         return m.clone();
